@@ -263,11 +263,41 @@ def normalReduceAxes (bounds : List (String × SExpr × SExpr)) (s shape : Shape
     | _ => none
 
 /-- `_is_normal_reduce_expr` + construction of the `ReduceOp` (on the expression
-    as written, casts not dropped).  The axes `(dim, variable)` are listed in the
-    NESTING order of the reduction variables (outermost first), which is the
-    order in which `hloDenote` reduces; the real `ReduceOp.axes` is the same set
-    as a dict. -/
+    as written, casts not dropped).  Besides the per-index checks of the loop
+    (`normalReduceAxes`): the subscript has one index per operand axis; no
+    reduction variable occurs twice (`seen_redn_vars`); every reduction variable
+    occurs (`seen_redn_vars == set(bounds)`); every output axis is consumed
+    (`i_out_dim == len(shape)`; the number of consumed output axes is the number
+    of non-reduced subscript entries).  The names of the nested reduction
+    variables must be distinct (always true for the keys of one `Reduce.bounds`).
+    The axes `(dim, variable)` are listed in the NESTING order of the reduction
+    variables (outermost first), which is the order in which `hloDenote`
+    reduces; the real `ReduceOp.axes` is the same set as a dict. -/
 def tryReduce (e : SExpr) (shape : Shape) (bs : List (String × Shape)) : Option HLO :=
+  match e with
+  | .reduce op v lo hi body =>
+    let r := peelReduce op (.reduce op v lo hi body)
+    (match r.2 with
+     | .sub a ix =>
+       (match lookupShape bs a with
+        | some s =>
+          if ix.length = s.length then
+            (match normalReduceAxes r.1 s shape ix 0 0 with
+             | some axes =>
+               if (r.1.map (·.1)).Nodup ∧ (axes.map (·.2)).Nodup
+                   ∧ (∀ b ∈ r.1, b.1 ∈ axes.map (·.2))
+                   ∧ ix.length - axes.length = shape.length then
+                 some (.reduce op a (r.1.flatMap fun b => axes.filter (·.2 == b.1)))
+               else none
+             | none => none)
+          else none
+        | none => none)
+     | _ => none)
+  | _ => none
+
+/-- the reduction stage BEFORE the fix of `_is_normal_reduce_expr` (kept to state
+    what was wrong with it, `raise_reduce_prefix_misreads`): only the per-index loop -/
+def tryReducePreFix (e : SExpr) (shape : Shape) (bs : List (String × Shape)) : Option HLO :=
   match e with
   | .reduce op v lo hi body =>
     let r := peelReduce op (.reduce op v lo hi body)
@@ -365,25 +395,6 @@ def varPositions : List SExpr → Nat → List (Nat × String)
   | [], _ => []
   | .var v :: rest, d => (d, v) :: varPositions rest (d + 1)
   | _ :: rest, d => varPositions rest (d + 1)
-
-/-- what `_is_normal_reduce_expr` does NOT check, and what makes a recognised
-    reduction a faithful `ReduceOp`: the reduction variables are pairwise
-    distinct, each occurs exactly once in the subscript, and the subscript
-    indexes every axis of the operand -/
-def reduceSideOK (e : SExpr) (bs : List (String × Shape)) : Bool :=
-  match e with
-  | .reduce op v lo hi body =>
-    let r := peelReduce op (.reduce op v lo hi body)
-    (match r.2 with
-     | .sub a ix =>
-       (match lookupShape bs a with
-        | some s =>
-          decide (r.1.map (·.1)).Nodup &&
-          r.1.all (fun b => ((varPositions ix 0).filter (·.2 == b.1)).length == 1) &&
-          ix.length == s.length
-        | none => false)
-     | _ => false)
-  | _ => false
 
 /-- the array a high-level operation denotes, given the index lambda's shape -/
 def hloDenote (h : HLO) (shape : Shape) (env : List (String × Arr Val)) : Arr Val :=
